@@ -4,6 +4,7 @@ import (
 	"context"
 	"fmt"
 	"math"
+	"os"
 	"testing"
 	"time"
 
@@ -23,6 +24,7 @@ type C10Req struct {
 	AmountSel int    `json:"amount_sel,omitempty"`
 	HashSel   int    `json:"hash_sel,omitempty"` // 0 known 1 unknown 2 empty (present, zero length) 3 oversized 4 short prefix of a known hash 5 known hash plus one byte 6 absent (nil)
 	HashAt    int    `json:"hash_at,omitempty"`
+	SlowStore bool   `json:"slow_store,omitempty"` // the store takes 6s per read for this request (request timeout 2s)
 	Raw       []byte `json:"raw,omitempty"`
 }
 
@@ -56,6 +58,7 @@ func genC10Req(t *rapid.T) C10Req {
 		r.OriginSel = rapid.IntRange(0, c10OriginSels-1).Draw(t, "origin")
 		r.AmountSel = rapid.IntRange(0, c10AmountSels-1).Draw(t, "amount")
 	}
+	r.SlowStore = rapid.IntRange(0, 7).Draw(t, "slowstore") == 0
 	return r
 }
 
@@ -301,9 +304,13 @@ func runC10(t *testing.T, s C10Scenario) (res Result) {
 				nBoundary++
 			}
 			rec.take()
+			if r.SlowStore {
+				rec.setDelay(6 * time.Second)
+			}
 			ctx, cancel := vctx(30 * time.Second)
 			resp := rawRequest(ctx, ne.hosts[1], ne.hosts[0].ID(), pb, raw, 200)
 			cancel()
+			rec.setDelay(0)
 			var judged *p2p_pb.HeaderRequest = pb
 			if pb == nil {
 				// raw bytes: judge against whatever they decode to (if they do)
@@ -313,6 +320,9 @@ func runC10(t *testing.T, s C10Scenario) (res Result) {
 						judged = p
 					}
 				}
+			}
+			if os.Getenv("VERIF_C10_DEBUG") != "" {
+				fmt.Printf("DBG request #%d elapsed=%v frames=%d end=%q\n", i, resp.Elapsed, len(resp.Frames), resp.EndErr)
 			}
 			v, _ := c10Judge(chain, s.Tail, head, judged, resp, rec.take())
 			if v != "" {
